@@ -101,6 +101,7 @@ TrEnd ==
   /\ LET e == Rec[l]
          fail == If(e.read_ok, "C03:read-back-failed")
                  \cup If(~e.read_ok \/ e.read = obsAppended, "C03:read-back-differs-from-appended-values")
+                 \cup If(~e.read_ok \/ (e.deser_ok /\ e.deser_read = obsAppended), "C03:deserializing-read-back-differs-from-appended-values")
                  \cup If(~e.read_ok \/ e.schema_same, "C03:writer-schema-differs")
                  \cup If(~e.read_ok \/ ({e.meta[i] : i \in 1..Len(e.meta)} = obsMeta /\ e.nmeta = Cardinality(obsMeta)),
                          "C03:user-metadata-differs")
